@@ -18,7 +18,7 @@ from ..algebra_lin import linear_form
 
 FILESET = "typhon/files/fileset.py"
 HCOMMON = "typhon/files/handlers/common.py"
-EXPECT = {"C02.table": 20, "C02.year2": 1, "C02.doy": 4, "C02.subsec": 2, "C02.endfill": 5, "C02.default_end": 3, "C02.merge": 4, "C02.reject": 4, "C02.memo": 1}
+EXPECT = {"C02.table": 21, "C02.year2": 1, "C02.doy": 4, "C02.subsec": 2, "C02.endfill": 5, "C02.default_end": 3, "C02.merge": 4, "C02.reject": 4, "C02.memo": 1}
 
 DOCUMENTED = ["year", "year2", "month", "day", "doy", "hour", "minute", "second", "millisecond"]
 FIELD = {"year": "year", "month": "month", "day": "day", "hour": "hour", "minute": "minute", "second": "second"}
@@ -737,11 +737,33 @@ def rule_regexfill(ctx):
             flat(e)
         first, last = parts[0], parts[-1]
         return isinstance(first, ast.Constant) and str(first.value).startswith("(?:") and isinstance(last, ast.Constant) and str(last.value).endswith(")") and len(parts) >= 3
-    okg = all(grouped(r_.value) for r_ in stripped)
-    ctx.ob("FileSet._remove_group_capturing.grouped", okg, "%s" % [str(norm(r_.value))[:70] for r_ in stripped],
+    in_helper = all(grouped(r_.value) for r_ in stripped)
+    # ... the group is added where the repetition is inserted (the dict of the duplicated placeholders in _fill_placeholders)
+    fp = ctx.func(FILESET, "FileSet._fill_placeholders")
+    class _V:
+        def __init__(self, value):
+            self.value = value
+    dcs = []
+    for c_ in calls_in(fp.node, "_remove_group_capturing"):
+        top = c_
+        while isinstance(parent(top), ast.BinOp) and isinstance(parent(top).op, ast.Add) or isinstance(parent(top), ast.JoinedStr) or isinstance(parent(top), ast.FormattedValue):
+            top = parent(top)
+        dcs.append(_V(top))
+    if not dcs:
+        raise AnalysisError("_fill_placeholders: the use of _remove_group_capturing for the repeated placeholders was not found")
+    at_site = all(grouped(d_.value) for d_ in dcs)
+    okg = at_site != in_helper and (at_site or in_helper)
+    ctx.ob("FileSet._fill_placeholders.repetition_grouped", at_site or in_helper, "inserted for a repetition: %s; helper returns %s" % (
+        [str(norm(d_.value))[:70] for d_ in dcs], [str(norm(r_.value))[:50] for r_ in stripped]),
            "'(?:' + <regex without the named group> + ')': the repetition of a placeholder with a value list stays one alternative of the path regex",
-           node=stripped[0], func=rg, witness=None if okg else {"template": "/data/{sat}/{year}{month}{day}_{sat}.nc", "placeholder": {"sat": ["noaa18", "metopa"]},
-                                                              "regex": "^/data/(?P<sat>noaa18|metopa)/..._noaa18|metopa\\.nc$"})
+           node=dcs[0].value, func=fp, witness=None if (at_site or in_helper) else {"template": "/data/{sat}/{year}{month}{day}_{sat}.nc", "placeholder": {"sat": ["noaa18", "metopa"]},
+                                                                              "regex": "^/data/(?P<sat>noaa18|metopa)/..._noaa18|metopa\\.nc$"})
+    # get_filename fills a user placeholder with the value of the same helper: it must stay the PLAIN value there
+    gfn = ctx.func(FILESET, "FileSet.get_filename")
+    uses_helper = bool(calls_in(gfn.node, "_remove_group_capturing"))
+    ctx.ob("FileSet._remove_group_capturing.plain", not (uses_helper and in_helper), "get_filename uses the helper: %s; helper adds a group: %s" % (uses_helper, in_helper),
+           "the helper only strips the named group: get_filename writes its result into the file NAME ('(?:noaa)_20200101.dat' is an unfilled placeholder)",
+           node=stripped[0], func=rg, witness=None if not (uses_helper and in_helper) else {"placeholder": {"sat": "noaa"}, "get_filename": "UnfilledPlaceholderError: (?:noaa)_20200101_00.dat"})
     f = ctx.func(FILESET, "FileSet._fill_placeholders")
     flow = Flow(f)
     pth = f.params[1]
